@@ -59,6 +59,10 @@ class World:
     self.conf = conf
     self.backend = backend
     self.ds = make_datastore(backend, scratch)
+    self.ds2 = None
+    if backend == 'sqlfile':
+      # a second connection to the same file: it sees committed data only
+      self.ds2 = sql_datastore.SQLDataStore(sqla.create_engine(str(self.ds._engine.url)))
     self.studies = conf['Studies']
     self.ids = list(range(1, conf['MaxId'] + 1))
     self.clients = conf['Clients']
@@ -268,7 +272,17 @@ class World:
 
   # ---- the whole abstract state, through the public API
   def project(self):
-    ds = self.ds
+    st = self._project(self.ds)
+    st['durable'] = True
+    if self.ds2 is not None:
+      try:
+        self.ds2._connection.rollback()          # end the reader's own (read) transaction: look at the file afresh
+      except Exception:  # pylint: disable=broad-except
+        pass
+      st['durable'] = self._project(self.ds2) == {k: v for k, v in st.items() if k != 'durable'}
+    return st
+
+  def _project(self, ds):
     st = {'owners': {}, 'study': {}, 'trial': {}, 'sop': {}, 'es': {}}
     for o in self.conf['Owners']:
       try:
@@ -314,6 +328,12 @@ class World:
     return st
 
   def close(self):
+    if self.ds2 is not None:
+      try:
+        self.ds2._connection.close()
+        self.ds2._engine.dispose()
+      except Exception:  # pylint: disable=broad-except
+        pass
     eng = getattr(self.ds, '_engine', None)
     if eng is not None:
       try:
